@@ -13,7 +13,7 @@ MPI_ENV = {"OMPI_ALLOW_RUN_AS_ROOT": "1", "OMPI_ALLOW_RUN_AS_ROOT_CONFIRM": "1",
 
 
 def work_dir(tag):
-    d = os.path.join(VERIF, "_work", tag)
+    d = os.path.join(os.environ.get("VERIF_OUT_ROOT") or VERIF, "_work", tag)
     if os.path.isdir(d):
         shutil.rmtree(d, ignore_errors=True)
     os.makedirs(d, exist_ok=True)
